@@ -90,7 +90,7 @@ PROPS = {
         "constants": ["ANNOUNCE_PICK_NUM", "INITIAL_PICK_NUM", "ITERATIVE_PICK_NUM", "MAX_TOKEN_LEN"],
         "trusted": COMMON_TRUST + ["transaction ids, action ids and token secrets are symbolic in the model and canonicalised by order of first appearance on both sides (C19/C06 prove what the symbols stand for)", "tokio timers fire at their deadline rounded up to the 1 ms tick (the observed instant is an oracle input of the `fire` op)"],
         "assumptions": [],
-        "level_note": "PARTIAL: proved for all runs — every peer of every accepted answer is delivered once per occurrence; the candidate list of every stored search is sorted by XOR distance in every state (binary search of insert_sorted_node proved correct: C02_candidates_sorted), so the announces go to the 8 closest candidates that answered with a token (C02_announce_closest), each with that node's latest token, the info-hash, the own id and the configured port. Not proved in Lean — the liveness part: that under E1-E4 all 8 closest nodes of the network become candidates and answer in time; the end-to-end claim is decided by the [C02] oracle on truthful simulated networks (tie)",
+        "level_note": "proved for all runs — every peer of every accepted answer is delivered once per occurrence; the candidate list of every stored search is sorted by XOR distance in every state (C02_candidates_sorted); the announces go to the 8 closest candidates that answered with a token, each with that node's latest token, the info-hash, the own id and the configured port (C02_announce_closest); and, since session 4, the reachability clause itself: on a network N of nodes with distinct ids and addresses whose answers arrive within D < 1.5 s and name the 8 nodes of N closest to the target (closed loop with a ghost log of the queries sent: TruthfulRun / FinishOk = E1-E4 of the property), the announce_peer datagrams of the search are exactly `closest8 target N`, each once, closest first, each with that node's own token (C02_announce_targets_reach at search level, C02_announce_targets_reach_handler for any interleaving of handler inputs; C02_reach_not_completed_early: never completed before the end-game timer, and outside the end-game the network always owes an answer). Hypotheses kept explicit: E1-E4, tokens <= 256 bytes, and that the placeholder handle (id 0…0 at 0.0.0.0:0, the filler of the pick array) is not a node of N — shown necessary by a computed counter-example; the code behaves the same way. That the end-game timer fires is C04_upper",
     },
     "C03": {
         "engines": [{"name": "handler", "quick": 60, "thorough": 1500, "oracle_tag": "C03"}],
@@ -100,7 +100,10 @@ PROPS = {
         "level_note": "yield provenance, announce discipline (<= 8, only when requested, only token holders, latest token), token provenance, routing by action prefix and run-once are proved for all event sequences at lookup/handler-model level; the model is tied to the real handler by lockstep on hostile network scenarios",
     },
     "C04": {
-        "engines": [{"name": "handler", "quick": 60, "thorough": 1500, "oracle_tag": "C04"}],
+        "engines": [{"name": "handler", "quick": 60, "thorough": 1500, "oracle_tag": "C04"},
+                    # "every search stream terminates" at node level: searches issued through the public API at any
+                    # moment (before, during and after bootstraps and re-bootstraps) must end ([C04] oracle)
+                    {"name": "node", "quick": 42, "thorough": 140, "oracle_tag": "C04"}],
         "constants": ["LOOKUP_TIMEOUT_ns", "ENDGAME_TIMEOUT_ns"],
         "trusted": COMMON_TRUST + ["transaction ids, action ids and token secrets are symbolic in the model and canonicalised by order of first appearance on both sides (C19/C06 prove what the symbols stand for)", "tokio timers fire at their deadline rounded up to the 1 ms tick (the observed instant is an oracle input of the `fire` op)"],
         "assumptions": ["timer contract: whenever the handler runs, no pending timer entry is overdue by more than J (tokio: < 1 ms); hypothesis PunctualRun of C04_upper"],
@@ -157,7 +160,7 @@ PROPS = {
         "constants": ["REFRESH_INTERVAL_TIMEOUT_ns", "REFRESH_CONCURRENCY", "RECENTLY_REQUESTED_SECS", "MAX_LAST_SEEN_MINS", "MAX_REFRESH_REQUESTS", "PINGS_PER_BUCKET"],
         "trusted": NODE_TRUST,
         "assumptions": [],
-        "level_note": "PARTIAL: proved — a refresh round queries exactly the first 4 waiting questionable contacts (all if <= 4) and leaves the next round pending 6 s later for ever (one chain: C18); an accepted answer makes the listed contact good at once; two unanswered queries after the 15 min window make it bad, and bad contacts are neither listed nor handed out (C10/C08). Not proved in Lean — the quantitative bounds (good again within 30 s; gone within 20 min of the last answer / 5 min of the last naming) over all interleavings with latencies: decided by the [C11] oracle on hours-long runs of the real node sampled every 5 virtual seconds, in lockstep with the model (tie). Suspicion F11 (a responsive contact transiently bad within one round trip) was not observed by the oracle in any run",
+        "level_note": "PARTIAL (hypotheses, not clauses, remain): proved — which contacts a refresh round pings (first 4 eligible in closest-to-target order), the self-perpetuating 6 s chain, an accepted answer makes a listed contact good at once, two strikes make a stale contact bad and unreported; and, since session 4, the quantitative bounds for punctual runs of the handler plus the bootstrap worker's table accesses (NRun J): a refresh round at least every 6 s + J (C11_round_every_6s, C11_rounds_in_window); the pigeonhole C11_pick_fair (with at most m other eligible contacts a waiting contact is picked by round ceil((m+1)/4) of a 30 s window) with its rely proved for every node step except a hearsay mention of a contact whose entry is bad or gone (C11_rely_step, C11_rely_hearsay; counter-example computed); C11_fresh_within + C11_refresh_answer_good (queried by lr + R(6 s + J), R = m/4+1; the answer is accepted whenever it arrives and makes the contact good: < 30 s for m <= 12, rtt <= 2 s); C11_purged_within (a silent contact is bad and unreported by t0 + 2(30 s + R(6 s + J)) = 108 s for m <= 12, well inside 20 min / 5 min). Explicit hypotheses: tokio's timer contract, the bound m on simultaneously eligible competitors (for m >= 20 the 30 s figure is not met by 4 pings per 6 s — the theorem's bound is what holds), the rely for re-named dead competitors, and that the contact is still listed when its answer arrives. NRun runs are not formally tied to DState.run (like C04's HOp runs). The [C11] oracle checks the end-to-end figures on the real node (single-contact, well-connected and crowded regimes)",
     },
     "C01": {
         "engines": [{"name": "node", "quick": 42, "thorough": 140, "oracle_tag": "C01"},
